@@ -28,6 +28,8 @@ def specs_for(ctx):
         # stobads=True on a DETERMINISTIC target: the option is reset for such targets, the default incumbent policy applies
         dict(D=2, target="rosen", box="sym", noise="det", options=dict(max_fun_evals=80, stobads=True, complete_poll=True), seed=ctx.seed * 10 + 10),
         dict(D=2, target="plateau", box="sym", noise="det", options=dict(max_fun_evals=70, stobads=True), seed=ctx.seed * 10 + 11),
+        # a target whose values are tiny in ABSOLUTE terms: any strictly lower value is an improvement
+        dict(D=2, target="sphere", box="sym", noise="det", scale=1e-21, options=dict(max_fun_evals=70), seed=ctx.seed * 10 + 13),
         # uncertainty_handling=False given explicitly
         dict(D=2, target="rosen", box="sym", noise="det", options=dict(max_fun_evals=70, uncertainty_handling=False), seed=ctx.seed * 10 + 12),
         # budgets that end the run right after the initial design / in the first iterations
